@@ -2,7 +2,7 @@
 # Runs every registered check against every seeded change (applied to /repo, undone afterwards)
 # and rewrites caught_by in each seeded/<name>/meta.json.
 cd /verif
-for d in seeded/*/; do
+for d in seeded/C*/; do
   n=$(basename $d)
   out=$(tools/tryseed.sh /verif/$d/patch.diff 2>&1)
   caught=$(echo "$out" | grep -E '^== C[0-9]+: CAUGHT' | sed -E 's/^== (C[0-9]+): CAUGHT/\1/' | tr '\n' ' ')
